@@ -111,6 +111,33 @@ pub fn run(mut run: Run) -> i32 {
                 if mp.unsigned_area() != mp.signed_area().abs() && (mp.unsigned_area() - 2.0 * ua).abs() > 2.0 * tol {
                     acc.viol("MultiPolygon::unsigned_area".into(), idx, || json!({"polygon": format!("{:?}", pg)}));
                 }
+                // members of MIXED winding: the polygon, the same polygon with every ring reversed, a clockwise Triangle, a Rect. unsigned areas add up,
+                // signed areas add up with their signs
+                let mut rev = pg.clone();
+                rev.exterior_mut(|r| r.0.reverse());
+                rev.interiors_mut(|rs| rs.iter_mut().for_each(|r| r.0.reverse()));
+                let (t0, t1, t2) = (tf((0, 0), off, scale), tf((0, 2), off, scale), tf((2, 0), off, scale));
+                let tri_cw = Triangle(t0, t1, t2); // (0,0),(0,2),(2,0) is clockwise; tuple constructor keeps the order
+                let rect = Rect::new(tf((0, 0), off, scale), tf((3, 1), off, scale));
+                let s2 = scale * scale;
+                for (name, members, want_signed, want_unsigned) in [
+                    ("[poly, reversed poly]", vec![Geometry::Polygon(pg.clone()), Geometry::Polygon(rev.clone())], 0.0, 2.0 * ua),
+                    ("[reversed poly, Rect]", vec![Geometry::Polygon(rev.clone()), Geometry::Rect(rect)], -sa + 3.0 * s2, ua + 3.0 * s2),
+                    ("[cw Triangle, poly]", vec![Geometry::Triangle(tri_cw), Geometry::Polygon(pg.clone())], sa - 2.0 * s2, ua + 2.0 * s2),
+                    ("[poly, [cw Triangle, reversed poly]]", vec![Geometry::Polygon(pg.clone()), Geometry::GeometryCollection(GeometryCollection(vec![Geometry::Triangle(tri_cw), Geometry::Polygon(rev.clone())]))], -2.0 * s2, 2.0 * ua + 2.0 * s2),
+                ] {
+                    acc.evals += 2;
+                    let gcm = GeometryCollection(members);
+                    let (gs, gu) = (gcm.signed_area(), gcm.unsigned_area());
+                    let t4 = 4.0 * tol + 1e-9 * s2;
+                    if (gs - want_signed).abs() > t4 || (gu - want_unsigned).abs() > t4 {
+                        acc.viol(format!("collection of members with mixed winding {}: areas are not the sums of the members' areas", name), idx, || json!({"collection": format!("{:?}", gcm), "signed": gs, "expected_signed": want_signed, "unsigned": gu, "expected_unsigned": want_unsigned}));
+                    }
+                }
+                let mpm = MultiPolygon(vec![pg.clone(), rev.clone()]);
+                if (mpm.unsigned_area() - 2.0 * ua).abs() > 2.0 * tol || mpm.signed_area().abs() > 2.0 * tol {
+                    acc.viol("MultiPolygon of members with mixed winding: areas are not the sums of the members' areas".into(), idx, || json!({"multipolygon": format!("{:?}", mpm), "signed": mpm.signed_area(), "unsigned": mpm.unsigned_area()}));
+                }
             }
             // orient
             for (dir, ext_ccw) in [(Direction::Default, true), (Direction::Reversed, false)] {
@@ -173,6 +200,26 @@ pub fn run(mut run: Run) -> i32 {
                     }
                     if l.is_ccw() != (a2 > 0) || l.is_cw() != (a2 < 0) {
                         acc.viol("is_ccw/is_cw inconsistent with exact area".into(), idx, || json!({"ring": format!("{:?}", l)}));
+                    }
+                    // the same ring with zero coordinates written as -0.0 (all of them / every other one): -0.0 == 0.0, so nothing may change
+                    if dup.is_none() && off == (0.0, 0.0) {
+                        for pattern in 0..3usize {
+                            let mut k = 0usize;
+                            let mut neg = |v: f64| -> f64 {
+                                if v == 0.0 {
+                                    k += 1;
+                                    if pattern == 0 || k % 2 == pattern - 1 { -0.0 } else { 0.0 }
+                                } else {
+                                    v
+                                }
+                            };
+                            let lz = LineString::new(l.0.iter().map(|c| Coord { x: neg(c.x), y: neg(c.y) }).collect::<Vec<_>>());
+                            acc.evals += 1;
+                            if lz.winding_order() != Some(want) {
+                                acc.viol(format!("winding_order changes when zero coordinates are written as -0.0 (expected {:?})", want), idx, || json!({"ring": format!("{:?}", lz), "got": format!("{:?}", lz.winding_order())}));
+                                break;
+                            }
+                        }
                     }
                 }
             }
